@@ -1,4 +1,5 @@
 import LyModel.Diff.Reverse
+import LyModel.Generated.Diff13
 /-!
 # Model of `src/diff.c`: `lyd_diff_merge_all` (merge of two diffs) — C13
 
@@ -19,7 +20,8 @@ child inherits is taken from the *updated* parent (`childInh cur t'`), which is 
 
 Quirks kept as they are: `none` on `replace` for a leaf sets the new value but adds no `orig-value` and keeps the default
 flag of the first diff; `delete` + `create` of a leaf equal to its schema default under `LYD_DIFF_MERGE_DEFAULTS` keeps the
-*deleted* value in the node; the redundant-move test of `isRedundant` compares two metadata instances of different
+*deleted* value in the node (finding F18(b); `Generated.Diff13.mergeDfltNeedsDeletedDflt`, read from the source by
+`tools/extractors/diff13.py`, says whether the repaired condition is in place); the redundant-move test of `isRedundant` compares two metadata instances of different
 annotations (`orig-key` with `key`, …) with `lyd_compare_meta`, which is never "equal", so a move back to the original place
 is never dropped; a leaf-list (`none` + `replace`, a moved instance whose default flag changed before) is `LY_EINT`.
 
@@ -102,7 +104,8 @@ def mergeCreate (S : Schema) (o : MergeOpts) (t : DNode) (cur : Op) (src : DNode
         | _, _ => .error .einval
       else if S.isKind src.sid .leaf then
         let sdflt : Option Bytes := if o.defaults then ((S.get? src.sid).bind fun n => n.dflts.head?) else none
-        if sdflt == some src.val then .ok (changeOp t .none, false)
+        if sdflt == some src.val && (!Generated.Diff13.mergeDfltNeedsDeletedDflt || sdflt == some t.val) then
+          .ok (changeOp t .none, false)
         else if sameInst S t src then .ok (changeOp t .none, false)
         else .ok (changeTerm (addMeta (changeOp t .replace) "orig-value" t.val) src.val, false)
       else .ok (changeOp t .none, false)
@@ -177,6 +180,15 @@ def placeBack (S : Schema) (inh : Option Op) (sibs : List DNode) (i : Nat) (t : 
   let l := if mv then moveToGroupEnd l i else l
   if r.2 then l.eraseIdx j else l
 
+/-- one cell of the 4 × 4 table: source operation `sop` merged into the target node `t` whose current operation is `cop`;
+second component: the node is moved behind its fellow instances -/
+def mergeCell (S : Schema) (o : MergeOpts) (sop : Op) (t : DNode) (cop : Op) (src : DNode) : Except DiffErr (DNode × Bool) :=
+  match sop with
+  | .replace => (mergeReplace S t cop src).map (·, false)
+  | .create => mergeCreate S o t cop src
+  | .delete => (mergeDelete S t cop src).map (·, false)
+  | .none => (mergeNone S t cop src).map (·, false)
+
 /-- `lyd_diff_merge_r(src, diff_parent, …)` without its recursion: `kidsK curInh srcInh tkids` merges the source node's
 children into the children `tkids` of the updated target node.  `sibs`: the sibling list of the target (all children of
 `diff_parent`, or the top level); `cur` / `sin`: the operations inherited at this level in the target / in the source. -/
@@ -200,13 +212,7 @@ def mergeStep (S : Schema) (o : MergeOpts) (cur sin : Option Op) (src : DNode) (
         | some cop =>
           -- special case of creating duplicate (leaf-)list instances
           if sop == .create && cop == .create && S.isDupInst t.sid then add else
-          let cell : Except DiffErr (DNode × Bool) :=
-            match sop with
-            | .replace => (mergeReplace S t cop src).map (·, false)
-            | .create => mergeCreate S o t cop src
-            | .delete => (mergeDelete S t cop src).map (·, false)
-            | .none => (mergeNone S t cop src).map (·, false)
-          match cell with
+          match mergeCell S o sop t cop src with
           | .error e => .error e
           | .ok (t1, mv) =>
             -- all descendants of a key-less list act as keys: nothing to merge below
